@@ -7,13 +7,18 @@
 -/
 import Gotree.Lemmas.C01
 import Gotree.Lemmas.C01Codec
+import Gotree.Lemmas.C01GoCodec
+import Gotree.Lemmas.C01Lit
+import Gotree.Lemmas.C01GoRead
 
 namespace Gotree.C01
 open Gotree Gotree.Newick
 
-/-- The round trip for every tree of the quantifier, and also for a root with a single child (`WF01r`). -/
-theorem parse_write_gen (C : FloatCodec) (t : T) (h : WF01r C.isFloat C.dom t = true) :
-    Newick.parse C.toCodec (Newick.write C.toCodec t) = .ok t.normIds := by
+/-- The round trip with ANY input following the text: the parser stops right after the `;` (this is what a
+    second `Parse()` on the same Parser starts from).  For every tree of the quantifier, and also for a
+    root with a single child (`WF01r`). -/
+theorem parseR_write (C : FloatCodec) (t : T) (tail : List Char) (h : WF01r C.isFloat C.dom t = true) :
+    Newick.parseR C.toCodec (Newick.write C.toCodec t ++ tail) = .ok (t.normIds, tail) := by
   cases t with
   | node d pp ks =>
     simp only [WF01r, Bool.and_eq_true, decide_eq_true_eq] at h
@@ -25,23 +30,23 @@ theorem parse_write_gen (C : FloatCodec) (t : T) (h : WF01r C.isFloat C.dom t = 
       have htrim := trimL_ok (k :: ks) (fun et hm => trim_ok _ _ et.2 et.1 (wfKids_mem _ _ _ hkids et hm)) 0
       have hlen' := normFromL_length (k :: ks) 0
       -- the text
-      have htxt : Newick.write C.toCodec (.node d pp (k :: ks)) =
-          '(' :: (writeKids C.toCodec true (k :: ks) ++ ')' :: (d.name.toList ++ (writeComments d.comments ++ [';']))) := by
+      have htxt : Newick.write C.toCodec (.node d pp (k :: ks)) ++ tail =
+          '(' :: (writeKids C.toCodec true (k :: ks) ++ ')' :: (d.name.toList ++ (writeComments d.comments ++ ';' :: tail))) := by
         simp [Newick.write, writeNode]
-      have hsd : StartsDelim (writeComments d.comments ++ [';']) :=
-        startsDelim_comments _ _ ⟨';', [], rfl, by decide⟩
+      have hsd : StartsDelim (writeComments d.comments ++ ';' :: tail) :=
+        startsDelim_comments _ _ ⟨';', tail, rfl, by decide⟩
       -- the machine
-      have hrun : run C.toCodec {} ('(' :: (writeKids C.toCodec true (k :: ks) ++ ')' :: (d.name.toList ++ (writeComments d.comments ++ [';'])))) =
-          .ok (⟨[⟨d, EdgeD.blank, (normFromL 0 (k :: ks)).1⟩], 0, some .eot, (normFromL 0 (k :: ks)).2, none, false⟩, [';']) := by
+      have hrun : run C.toCodec {} ('(' :: (writeKids C.toCodec true (k :: ks) ++ ')' :: (d.name.toList ++ (writeComments d.comments ++ ';' :: tail)))) =
+          .ok (⟨[⟨d, EdgeD.blank, (normFromL 0 (k :: ks)).1⟩], 0, some .eot, (normFromL 0 (k :: ks)).2, none, false⟩, ';' :: tail) := by
         have h0 : ({} : PState) = ⟨[], 0, none, 0, none, false⟩ := rfl
         rw [h0, run_open_root, kids_all C k ks hkid _ [] 1 0 none false _ (by omega)]
         have h10 : (1 : Int) - 1 = 0 := by omega
         rw [h10]
         -- the root's name
         have hname : run C.toCodec ⟨[{ (⟨⟨"", []⟩, EdgeD.blank, []⟩ : Frame) with kids := [] ++ (normFromL 0 (k :: ks)).1 }], 0, some .closepar,
-              (normFromL 0 (k :: ks)).2, none, false⟩ (d.name.toList ++ (writeComments d.comments ++ [';'])) =
+              (normFromL 0 (k :: ks)).2, none, false⟩ (d.name.toList ++ (writeComments d.comments ++ ';' :: tail)) =
             run C.toCodec ⟨[⟨⟨d.name, []⟩, EdgeD.blank, (normFromL 0 (k :: ks)).1⟩], 0, some .closepar,
-              (normFromL 0 (k :: ks)).2, none, false⟩ (writeComments d.comments ++ [';']) := by
+              (normFromL 0 (k :: ks)).2, none, false⟩ (writeComments d.comments ++ ';' :: tail) := by
           simp only [innerNameOK, Bool.and_eq_true] at hin
           obtain ⟨⟨hnm, hfirst⟩, hnum⟩ := hin
           cases hl : d.name.toList with
@@ -62,20 +67,78 @@ theorem parse_write_gen (C : FloatCodec) (t : T) (h : WF01r C.isFloat C.dom t = 
         simp only [List.nil_append] at hname ⊢
         rw [hname]
         obtain ⟨pt', _, hc⟩ := run_comments C.toCodec d.comments ⟨⟨d.name, []⟩, EdgeD.blank, (normFromL 0 (k :: ks)).1⟩ [] 0 .closepar
-          (normFromL 0 (k :: ks)).2 none false [';'] (Or.inl rfl) hcs
+          (normFromL 0 (k :: ks)).2 none false (';' :: tail) (Or.inl rfl) hcs
         rw [hc]
         simp only [Bool.false_and, List.nil_append]
         rw [run_semi]
       -- Parse around the loop
       rw [htxt]
-      obtain ⟨hs0, hk0⟩ := scanIW_char C.toCodec '(' (writeKids C.toCodec true (k :: ks) ++ ')' :: (d.name.toList ++ (writeComments d.comments ++ [';'])))
+      obtain ⟨hs0, hk0⟩ := scanIW_char C.toCodec '(' (writeKids C.toCodec true (k :: ks) ++ ')' :: (d.name.toList ++ (writeComments d.comments ++ ';' :: tail)))
         .openpar (scan_openpar _ _) (by decide)
-      obtain ⟨hs1, _⟩ := scanIW_char C.toCodec ';' [] .eot (scan_semi _ _) (by decide)
-      simp [Newick.parse, hs0, hk0, hrun, hs1, PState.result, PState.unwind, Frame.toT, trimTips, T.normIds, normFrom, htrim, hlen']
+      obtain ⟨hs1, _⟩ := scanIW_char C.toCodec ';' tail .eot (scan_semi _ _) (by decide)
+      simp [Newick.parseR, hs0, hk0, hrun, hs1, PState.result, PState.unwind, Frame.toT, trimTips, T.normIds, normFrom, htrim, hlen']
       intro hks
       rw [hks] at hroot1
       simp at hroot1
       rw [hroot1]
+
+/-- `Parse` is `parseR` without the rest. -/
+theorem parse_eq_parseR (C : Codec) (inp : List Char) :
+    Newick.parse C inp = (match Newick.parseR C inp with
+      | .ok (t, _) => .ok t | .err m => .err m | .panic m => .panic m | .unrep m => .unrep m) := by
+  unfold Newick.parse Newick.parseR
+  simp only []
+  split
+  · rfl
+  · split
+    · rfl
+    · split <;> try rfl
+      split
+      · rfl
+      · split
+        · rfl
+        · split <;> rfl
+
+/-- The round trip for every tree of the quantifier, and also for a root with a single child (`WF01r`). -/
+theorem parse_write_gen (C : FloatCodec) (t : T) (h : WF01r C.isFloat C.dom t = true) :
+    Newick.parse C.toCodec (Newick.write C.toCodec t) = .ok t.normIds := by
+  have := parseR_write C t [] h
+  rw [List.append_nil] at this
+  rw [parse_eq_parseR, this]
+
+theorem parseMany_ok (C : Codec) (inp : List Char) (t : T) (r : List Char) (h : Newick.parseR C inp = .ok (t, r)) :
+    Newick.parseMany C inp = .ok t :: Newick.parseMany C r := by
+  rw [Newick.parseMany]
+  split
+  · rename_i t' r' h'; rw [h] at h'; cases h'; rfl
+  all_goals (rename_i m h'; rw [h] at h'; cases h')
+
+theorem parseMany_nil (C : Codec) : Newick.parseMany C [] = [.err "found …, expected ("] := by
+  rw [Newick.parseMany]
+  have : Newick.parseR C [] = .err "found …, expected (" := by
+    simp [Newick.parseR, scanIW, skipWs, scan]
+  split
+  all_goals (rename_i h'; rw [this] at h'; cases h')
+  rfl
+
+/-- One Parser, several trees: calling `Parse()` repeatedly on the concatenation of the texts of WF01 trees
+    delivers the trees one by one, then the error of the exhausted input. -/
+theorem parseMany_writes (C : FloatCodec) (ts : List T) (h : ∀ t ∈ ts, WF01 C.isFloat C.dom t = true) :
+    Newick.parseMany C.toCodec (ts.flatMap (Newick.write C.toCodec)) =
+      ts.map (fun t => Newick.Outcome.ok t.normIds) ++ [.err "found …, expected ("] := by
+  induction ts with
+  | nil => simp [parseMany_nil]
+  | cons t ts ih =>
+    have ht := h t (List.mem_cons_self ..)
+    have hr : WF01r C.isFloat C.dom t = true := by
+      cases t with
+      | node d pp ks =>
+        simp only [WF01, Bool.and_eq_true, decide_eq_true_eq] at ht
+        obtain ⟨⟨⟨hlen, hin⟩, hcs⟩, hkids⟩ := ht
+        simp only [WF01r, Bool.and_eq_true, decide_eq_true_eq, Bool.or_eq_true, bne_iff_ne, ne_eq]
+        exact ⟨⟨⟨⟨by omega, Or.inl (by omega)⟩, hin⟩, hcs⟩, hkids⟩
+    simp only [List.flatMap_cons, List.map_cons, List.cons_append]
+    rw [parseMany_ok _ _ _ _ (parseR_write C t _ hr), ih (fun t' ht' => h t' (List.mem_cons_of_mem _ ht'))]
 
 /-- ★ Reading back what the writer wrote gives the same tree: same shape, child order, names, lengths,
     supports, p-values, node comments and branch comments; only the branch ids are renumbered in creation
@@ -134,6 +197,54 @@ theorem write_injective_on_WF01 (C : FloatCodec) (t₁ t₂ : T) (h₁ : WF01 C.
   rw [heq] at s2
   exact sameTree_euclid t₁ t₂ _ s1 s2
 
+/-- ★ for the executable codec: the round trip of the very functions the driver runs against the Go code
+    (`parse goCodec`, `write goCodec`), for every tree whose values pass the decidable check `goDom`
+    (the driver evaluates `WF01 goCodec.isFloat goDom` on every case: tag `godom`). -/
+theorem parse_write_go (t : T) (h : WF01 goCodec.isFloat goDom t = true) :
+    Newick.parse goCodec (Newick.write goCodec t) = .ok t.normIds :=
+  parse_write goFloatCodec t h
+
+/-- ★ for the executable codec with ALL FOUR laws proved: `goDomS x` only says that the shortest-digit search
+    for `|x|` ended on a candidate it checked (and that the decimal magnitude is inside the reader's window);
+    that the text `goFormatFloat x` is then accepted by the model of `ParseFloat` and read back as `x` is
+    theorem `goDomS_goDom` (render → read, digit by digit).  The driver evaluates this hypothesis on every
+    case (tag `godom`) and reports a float64 value outside `goDomS` as a broken tie. -/
+theorem parse_write_goS (t : T) (h : WF01 goCodec.isFloat goDomS t = true) :
+    Newick.parse goCodec (Newick.write goCodec t) = .ok t.normIds :=
+  parse_write goFloatCodecS t h
+
+/-- the four codec laws of the executable codec, as one statement -/
+theorem goCodec_laws :
+    (∀ x : Rat, goCodec.fmt x ≠ [] ∧ (goCodec.fmt x).all numClean = true) ∧
+    (∀ x : Rat, goDomS x = true → goCodec.isFloat (goCodec.fmt x) = true) ∧
+    (∀ x : Rat, goDomS x = true → goCodec.parse (goCodec.fmt x) = some x) ∧
+    (∀ l : List Char, goCodec.isFloat l = true → l.all (fun c => c != '/') = true) :=
+  ⟨goFormatFloat_clean, goFloatCodecS.fmt_isFloat, goFloatCodecS.parse_fmt, goCodec_isFloat_noSlash⟩
+
+/-- the model of `ParseFloat` on what the model of `FormatFloat` writes for `n · 10^p`: the nearest float64 -/
+theorem goParseFloat_of_render (n : Nat) (p : Int) (h0 : 0 < n) (h1 : n < 10 ^ 400)
+    (hlo : -330 ≤ (numDecDigits n : Int) + p) (hhi : (numDecDigits n : Int) + p ≤ 311) :
+    goParseFloat (renderFixed 400 n p) = (match roundF64 (scale10 ((n : Nat) : Rat) p) with | none => .bad | some q => .fin q) :=
+  (goParseFloat_render n p h0 h1 hlo hhi).1
+
+/-- the first and the fourth law of the executable codec hold for all inputs -/
+theorem goCodec_unconditional_laws :
+    (∀ x : Rat, goCodec.fmt x ≠ [] ∧ (goCodec.fmt x).all numClean = true) ∧
+    (∀ l : List Char, goCodec.isFloat l = true → l.all (fun c => c != '/') = true) :=
+  ⟨goFormatFloat_clean, goCodec_isFloat_noSlash⟩
+
+/-! ### the node stack, literally -/
+
+/-- The machine that keeps parseIter's variables `node` / `edge` (their nil-ness) and the nil edge of the
+    stack elements explicitly (Model/C01Lit.lean) computes, for EVERY input, what `Newick.parse` computes:
+    the nil tests the functional machine derives from the shape of the stack are the code's. -/
+theorem parse_literal_stack (C : Codec) (inp : List Char) : Lit.parseL C inp = Newick.parse C inp :=
+  Lit.parseL_eq_parse C inp
+
+/-- the loop itself, from the initial state -/
+theorem run_literal_stack (C : Codec) (inp : List Char) :
+    Lit.eraseO (Lit.runL C {} inp) = Newick.run C {} inp := Lit.runL_eq_run C inp
+
 /-! ### defect F1 (repaired by 6ae5e49): regression theorems -/
 
 /-- The scanner as it is now returns a name containing NUL whole … -/
@@ -184,6 +295,12 @@ theorem needs_comment_without_bracket :
     roundTripModel ratCodec.toCodec (root3 (innerAB ⟨NIL, NIL, NIL, [], 0⟩ ⟨"", ["a]b"]⟩)) = false := by decide +kernel
 /-- a metacharacter inside a name splits it -/
 theorem needs_no_metachar : roundTripModel ratCodec.toCodec (root3 (leafE NIL "x:y")) = false := by decide +kernel
+/-- quoting does not protect a metacharacter: the parser knows no quotes (`'x,y'` is two tips) -/
+theorem needs_no_metachar_even_quoted : roundTripModel ratCodec.toCodec (root3 (leafE NIL "'x,y'")) = false := by decide +kernel
+/-- … while quotes, blanks inside and NHX-style comments as such are harmless -/
+theorem quotes_blanks_nhx_roundtrip :
+    roundTripModel ratCodec.toCodec (root3 (innerAB ⟨1, NIL, NIL, ["&&NHX:S=x:E=1.1.1"], 0⟩ ⟨"'Homo sapiens'", ["&&NHX:B=100", "&!color=#ff0000"]⟩)) = true ∧
+    roundTripModel ratCodec.toCodec (root3 (leafE 2 "it''s \"x\" y")) = true := by decide +kernel
 /-- a numeric-looking root name is ignored by the parser ("support attached to the root") -/
 theorem needs_nonnumeric_root_name :
     roundTripModel ratCodec.toCodec (.node ⟨"1r2", []⟩ 0 [leafE NIL "a", leafE NIL "b"]) = false := by decide +kernel
